@@ -224,6 +224,8 @@ def main():
     for k in range(n_id):
         quoted = ck.rng.random() < 0.4
         text = gen_ident(ck.rng, quoted)
+        if k == 0:
+            quoted, text = True, "values"          # the witness of finding C02-use-schema-quoted-values, replayed on every run
         mask = [ck.rng.random() < 0.5 for _ in text]
         cases.append([S(text), int(quoted), [int(b) for b in mask]])
         ck.count("ident:quoted" if quoted else "ident:unquoted")
@@ -250,6 +252,11 @@ def main():
                 obs.append({"status": st, "col": c1, "dictkey": c2, "desc": c3, "schema": sch, "drop": dst, "info": sorted(names), "show": sorted(shown), "val": [list(r) for r in val]})
             except Exception as e:  # noqa: BLE001
                 obs.append({"error": f"{type(e).__name__}: {str(e)[:120]}"})
+                for clean in ("use schema db1.s1", f"drop schema if exists db1.{idn}", f"drop table if exists db1.s1.{idn}"):
+                    try:
+                        conn.cursor().execute(clean)
+                    except Exception:  # noqa: BLE001
+                        pass
         impl.append(obs)
         info.append((text, quoted, re_text))
     fs.duck_conn.close()
@@ -267,6 +274,9 @@ def main():
             rep = {"identifier": render_ident(variant, quoted), "model_reported_name": name, "observed": o}
             if "error" in o and quoted and "." in variant and "C02-quoted-dot" in known:
                 ck.known("C02-quoted-dot", known["C02-quoted-dot"]["what"])
+                continue
+            if "error" in o and quoted and variant.lower() == "values" and "Values" in o["error"] and "C02-use-schema-quoted-values" in known:
+                ck.known("C02-use-schema-quoted-values", known["C02-use-schema-quoted-values"]["what"])
                 continue
             if "error" in o and "$" in variant and "C02-dollar-in-identifier" in known:
                 ck.known("C02-dollar-in-identifier", known["C02-dollar-in-identifier"]["what"])
@@ -292,7 +302,18 @@ def main():
         x, y = ck.rng.choice(variants), ck.rng.choice(variants)
         eq_cases.append([[S(x[0]), int(x[1])], [S(y[0]), int(y[1])]])
         eq_impl.append(int(checks.equal(exp.Identifier(this=x[0], quoted=x[1]), exp.Identifier(this=y[0], quoted=y[1]))))
+    # translator tie: checks.equal re-read from /repo's checks.py and proved equal to the model's ident_eq (generated theorem)
+    import checks_translate
+
+    try:
+        tie_ok, tie_out = core.source_tie("c02", checks_translate.coq(core.REPO), 1)
+        ck.cov["source_tie"] = {"theorem": "ident_eq_matches_source (generated from fakesnow/checks.py::equal with ast, checked by coqc)", "accepted": tie_ok}
+    except checks_translate.Unsupported as e:
+        tie_ok, tie_out = False, f"checks.equal is no longer of the translated form: {e}"
     dis = ck.correspond(eq_cases, eq_impl, label="eq", run="run_c02_eq")
+    if not tie_ok and not dis:
+        report("eq-tie", f"checks.equal as written in checks.py is no longer provably the model's ident_eq: {tie_out}; Props_C02.ident_eq_respell is no longer about this code",
+               {"theorem": "ident_eq_matches_source"}, no_input=True)
     for i in dis[:1]:
         report("eq", f"checks.equal on {eq_cases[i]} gives {eq_impl[i]}, the model's ident_eq {ck.model_obs[i]}", {"case": eq_cases[i], "theorem": "Props_C02.ident_eq_respell"}, no_input=True)
 
